@@ -4,13 +4,13 @@
   What Lean carries: the LOGICAL causes of a crash are absent in each modelled component, for all
   inputs — partial operations (index, slice, type assertion) are guarded, alias cycles are rejected,
   every loop consumes input.  Each component model makes a Go panic an explicit outcome and proves
-  it unreachable; this file gathers those theorems (C06.theorems) and pins the per-function
-  inventory of partial operations regenerated from the Go source: a new index/slice/assertion/
-  division anywhere breaks `partial_ops_pinned`, after which the CRASH group searches for an input.
+  it unreachable; this file gathers those theorems (C06.theorems).  The inventory of partial
+  operations regenerated from the Go source is a DRIFT DETECTOR (Properties/C06Inventory.lean, not a
+  proof obligation of the property): when the package gains an index/slice/assertion/division that no
+  syntactic pattern shows to be safe, the check runs its enlarged crash search.
   What Lean cannot carry: real stack depth, allocation size, the runtime — covered only by the
   CRASH group (isolated worker processes, inputs up to a few kilobytes, nesting to 2000).
 -/
-import Kvql.Generated.Inventory
 import Kvql.Properties.C04
 import Kvql.Properties.C07
 import Kvql.Properties.C15
@@ -19,198 +19,5 @@ import Kvql.Properties.C17
 import Kvql.Proofs.ExecPanicFree
 
 namespace Kvql.Properties.C06
-
-open Kvql.Generated
-
-/-- per function: number of index, slice, non-comma-ok type-assertion and `/ %` expressions, as
-    accounted for by the component models (the state of the source the panic-freedom theorems were
-    proved against) -/
-def expectedPartialOps : List (String × Nat × Nat × Nat × Nat) := [
-  ("AddAggrFunction", 1, 0, 0, 0),
-  ("AddScalarFunction", 1, 0, 0, 0),
-  ("AggregatePlan.Batch", 0, 1, 0, 0),
-  ("AggregatePlan.Init", 1, 0, 0, 0),
-  ("AggregatePlan.batch", 4, 0, 0, 0),
-  ("AggregatePlan.batchGetAggrKeys", 5, 1, 0, 0),
-  ("AggregatePlan.createAggrRow", 1, 0, 0, 0),
-  ("AggregatePlan.listAggrFunctions", 5, 0, 0, 0),
-  ("AggregatePlan.next", 4, 0, 0, 0),
-  ("AggregatePlan.prepare", 2, 0, 0, 0),
-  ("AggregatePlan.prepareBatch", 4, 0, 0, 0),
-  ("AggregatePlan.updateRowAggrFunc", 1, 0, 0, 0),
-  ("BinaryOpExpr.String", 3, 0, 0, 0),
-  ("BinaryOpExpr.checkWithAndOr", 1, 0, 0, 0),
-  ("BinaryOpExpr.checkWithBetween", 2, 0, 0, 0),
-  ("BinaryOpExpr.checkWithCompares", 1, 0, 0, 0),
-  ("BinaryOpExpr.checkWithMath", 1, 0, 0, 0),
-  ("BinaryOpExpr.execAndOrBatch", 4, 0, 0, 0),
-  ("BinaryOpExpr.execBetweenBatch", 16, 0, 0, 0),
-  ("BinaryOpExpr.execEqualBatch", 8, 0, 0, 0),
-  ("BinaryOpExpr.execInBatch", 9, 0, 0, 0),
-  ("BinaryOpExpr.execMathBatch", 3, 0, 0, 0),
-  ("BinaryOpExpr.execNumberBetween", 2, 0, 0, 0),
-  ("BinaryOpExpr.execNumberCompareBatch", 3, 0, 0, 0),
-  ("BinaryOpExpr.execPrefixMatchBatch", 3, 0, 0, 0),
-  ("BinaryOpExpr.execRegexpMatchBatch", 5, 0, 0, 0),
-  ("BinaryOpExpr.execStringBetween", 2, 0, 0, 0),
-  ("BinaryOpExpr.execStringCompareBatch", 3, 0, 0, 0),
-  ("BinaryOpExpr.execStringConcateBatch", 3, 0, 0, 0),
-  ("BoolExpr.ExecuteBatch", 1, 0, 0, 0),
-  ("BuildExecutor", 0, 0, 1, 0),
-  ("BuildOp", 1, 0, 0, 0),
-  ("CheckCtx.GetNamedExpr", 1, 0, 0, 0),
-  ("DeletePlan.execute", 1, 0, 0, 0),
-  ("ExecuteCtx.AdjustChunkCache", 3, 0, 0, 0),
-  ("ExecuteCtx.AppendChunkFieldResult", 3, 0, 0, 0),
-  ("ExecuteCtx.GetChunkFieldFinalResult", 1, 0, 0, 0),
-  ("ExecuteCtx.GetChunkFieldResult", 1, 0, 0, 0),
-  ("ExecuteCtx.GetFieldResult", 1, 0, 0, 0),
-  ("ExecuteCtx.SetChunkFieldResult", 2, 0, 0, 0),
-  ("ExecuteCtx.SetFieldResult", 1, 0, 0, 0),
-  ("ExpressionOptimizer.tryOptimizeBinaryOpExecute", 0, 0, 2, 0),
-  ("ExpressionOptimizer.tryOptimizeFunctionCall", 1, 0, 2, 0),
-  ("FieldAccessExpr.execDictAccess", 2, 0, 0, 0),
-  ("FieldAccessExpr.execDictAccessBatch", 5, 0, 0, 0),
-  ("FieldAccessExpr.execListAccess", 4, 0, 0, 0),
-  ("FieldAccessExpr.execListAccessBatch", 7, 0, 0, 0),
-  ("FieldExpr.ExecuteBatch", 4, 0, 0, 0),
-  ("FieldExpr.String", 1, 0, 0, 0),
-  ("FieldReferenceExpr.ExecuteBatch", 2, 0, 0, 0),
-  ("FilterExec.Filter", 1, 0, 0, 0),
-  ("FilterExec.filterBatch", 1, 0, 0, 0),
-  ("FilterExec.filterChunk", 2, 0, 0, 0),
-  ("FilterOptimizer.Optimize", 4, 0, 0, 0),
-  ("FilterOptimizer.intersectConjuncts", 1, 1, 0, 0),
-  ("FilterOptimizer.intersectionMget", 3, 0, 0, 0),
-  ("FilterOptimizer.intersectionMgetAndPrefix", 1, 0, 0, 0),
-  ("FilterOptimizer.intersectionMgetAndRange", 2, 0, 0, 0),
-  ("FilterOptimizer.intersectionPrefix", 2, 0, 0, 0),
-  ("FilterOptimizer.intersectionPrefixAndRange", 3, 0, 0, 0),
-  ("FilterOptimizer.intersectionRange", 4, 0, 0, 0),
-  ("FilterOptimizer.optimizeAndExpr", 0, 1, 0, 0),
-  ("FilterOptimizer.unionMget", 2, 0, 0, 0),
-  ("FilterOptimizer.unionMgetAndPrefix", 1, 0, 0, 0),
-  ("FilterOptimizer.unionMgetAndRange", 3, 0, 0, 0),
-  ("FilterOptimizer.unionPrefix", 2, 0, 0, 0),
-  ("FilterOptimizer.unionPrefixAndRange", 3, 0, 0, 0),
-  ("FilterOptimizer.unionRange", 4, 0, 0, 0),
-  ("FinalLimitPlan.Batch", 0, 1, 0, 0),
-  ("FinalOrderPlan.Batch", 0, 0, 1, 0),
-  ("FinalOrderPlan.Init", 1, 0, 0, 0),
-  ("FinalOrderPlan.Next", 0, 0, 1, 0),
-  ("FloatExpr.ExecuteBatch", 1, 0, 0, 0),
-  ("FullScanPlan.Batch", 1, 1, 0, 0),
-  ("FunctionCallExpr.ExecuteBatch", 1, 0, 0, 0),
-  ("FunctionCallExpr.String", 1, 0, 0, 0),
-  ("FunctionCallExpr.executeFuncBatch", 2, 0, 0, 0),
-  ("FunctionCallExpr.tryRewriteExpr", 2, 0, 0, 0),
-  ("GetAggrFunctionByName", 1, 0, 0, 0),
-  ("GetScalarFunction", 1, 0, 0, 0),
-  ("GetScalarFunctionByName", 1, 0, 0, 0),
-  ("IsAggrFunc", 1, 0, 0, 0),
-  ("IsAggrFuncExpr", 1, 0, 0, 0),
-  ("IsScalarFuncExpr", 1, 0, 0, 0),
-  ("Lexer.Split", 2, 10, 0, 0),
-  ("LimitPlan.Batch", 0, 1, 0, 0),
-  ("ListExpr.Check", 1, 1, 0, 0),
-  ("ListExpr.ExecuteBatch", 1, 0, 0, 0),
-  ("ListExpr.String", 1, 0, 0, 0),
-  ("MultiGetPlan.Batch", 2, 1, 0, 0),
-  ("MultiGetPlan.Next", 1, 0, 0, 0),
-  ("NameExpr.ExecuteBatch", 1, 0, 0, 0),
-  ("NewMultiGetPlan", 2, 1, 0, 0),
-  ("NotExpr.ExecuteBatch", 2, 0, 0, 0),
-  ("NumberExpr.ExecuteBatch", 1, 0, 0, 0),
-  ("Optimizer.buildFinalOrderPlan", 1, 0, 0, 0),
-  ("Optimizer.optimizeDeletePlanToRemovePlan", 1, 0, 0, 0),
-  ("Optimizer.optimizeSelectExpressions", 1, 0, 0, 0),
-  ("Parser.Parse", 2, 0, 0, 0),
-  ("Parser.findFieldInSelect", 1, 0, 0, 0),
-  ("Parser.next", 1, 0, 0, 0),
-  ("Parser.parseFieldAccess", 1, 0, 0, 0),
-  ("Parser.parseLimit", 3, 0, 0, 0),
-  ("Parser.parseSelect", 2, 0, 0, 0),
-  ("Parser.trimEndSemis", 1, 1, 0, 0),
-  ("PrefixScanPlan.Batch", 1, 1, 0, 0),
-  ("ProjectionPlan.ownsFieldName", 2, 0, 0, 0),
-  ("ProjectionPlan.processProjection", 5, 0, 0, 0),
-  ("ProjectionPlan.processProjectionBatch", 8, 0, 0, 0),
-  ("PutPlan.String", 1, 0, 0, 0),
-  ("PutPlan.execute", 3, 0, 0, 0),
-  ("RangeScanPlan.Batch", 1, 1, 0, 0),
-  ("RemovePlan.String", 1, 0, 0, 0),
-  ("RemovePlan.execute", 2, 0, 0, 0),
-  ("ScanType.String", 2, 0, 0, 0),
-  ("SelectStmt.RewriteFieldNames", 3, 0, 0, 0),
-  ("StringExpr.ExecuteBatch", 1, 0, 0, 0),
-  ("Token.String", 1, 0, 0, 0),
-  ("aggrAvgFunc.Complete", 0, 0, 0, 2),
-  ("aggrAvgFunc.Update", 1, 0, 0, 0),
-  ("aggrCallSites", 1, 0, 0, 0),
-  ("aggrGroupConcatFunc.Update", 1, 0, 0, 0),
-  ("aggrJsonArrayAggFunc.Update", 1, 0, 0, 0),
-  ("aggrMaxFunc.Update", 1, 0, 0, 0),
-  ("aggrMinFunc.Update", 1, 0, 0, 0),
-  ("aggrQuantileFunc.Update", 1, 0, 0, 0),
-  ("aggrSumFunc.Update", 1, 0, 0, 0),
-  ("checkFunctionCalls", 3, 0, 0, 0),
-  ("cosineDistance", 6, 0, 0, 1),
-  ("executeMathOp", 0, 0, 0, 3),
-  ("funcCosineDistance", 2, 0, 0, 0),
-  ("funcCosineDistanceVec", 5, 0, 0, 0),
-  ("funcFloatList", 2, 0, 0, 0),
-  ("funcFloatListVec", 2, 0, 0, 0),
-  ("funcIntList", 2, 0, 0, 0),
-  ("funcIntListVec", 2, 0, 0, 0),
-  ("funcIsFloat", 1, 0, 0, 0),
-  ("funcIsFloatVec", 6, 0, 0, 0),
-  ("funcIsInt", 1, 0, 0, 0),
-  ("funcIsIntVec", 6, 0, 0, 0),
-  ("funcJoin", 4, 1, 0, 0),
-  ("funcJoinVec", 2, 0, 0, 0),
-  ("funcJson", 2, 0, 0, 0),
-  ("funcJsonVec", 4, 0, 0, 0),
-  ("funcL2Distance", 2, 0, 0, 0),
-  ("funcL2DistanceVec", 5, 0, 0, 0),
-  ("funcLen", 2, 0, 0, 0),
-  ("funcLenVec", 4, 0, 0, 0),
-  ("funcSplit", 4, 0, 0, 0),
-  ("funcSplitVec", 7, 0, 0, 0),
-  ("funcStrlen", 1, 0, 0, 0),
-  ("funcStrlenVec", 3, 0, 0, 0),
-  ("funcSubStr", 7, 0, 0, 0),
-  ("funcSubStrVec", 11, 0, 0, 0),
-  ("funcToFloat", 1, 0, 0, 0),
-  ("funcToFloatVec", 3, 0, 0, 0),
-  ("funcToInt", 1, 0, 0, 0),
-  ("funcToIntVec", 3, 0, 0, 0),
-  ("funcToList", 1, 0, 0, 0),
-  ("funcToListVec", 2, 0, 0, 0),
-  ("funcToLower", 1, 0, 0, 0),
-  ("funcToLowerVec", 3, 0, 0, 0),
-  ("funcToString", 1, 0, 0, 0),
-  ("funcToStringVec", 3, 0, 0, 0),
-  ("funcToUpper", 1, 0, 0, 0),
-  ("funcToUpperVec", 3, 0, 0, 0),
-  ("l2Distance", 2, 0, 0, 0),
-  ("newAggrGroupConcatFunc", 3, 0, 0, 0),
-  ("newAggrQuantileFunc", 5, 0, 0, 0),
-  ("orderColumnsRow.Less", 4, 0, 0, 0),
-  ("orderColumnsRowHeap.Less", 2, 0, 0, 0),
-  ("orderColumnsRowHeap.Pop", 1, 1, 0, 0),
-  ("orderColumnsRowHeap.Push", 0, 0, 1, 0),
-  ("orderColumnsRowHeap.Swap", 4, 0, 0, 0),
-  ("outputQueryAndErrPos", 0, 2, 0, 0),
-  ("reachesField", 2, 0, 0, 0),
-  ("subString", 0, 1, 0, 0),
-  ("toFloatList", 18, 0, 0, 0),
-  ("toIntList", 18, 0, 0, 0),
-  ("unpackArray", 12, 0, 0, 0),
-  ("unpackArrayR", 1, 0, 0, 0)
-]
-
-set_option maxRecDepth 100000 in
-/-- the partial operations in the Go source today are exactly the ones accounted for -/
-theorem partial_ops_pinned : partialOps = expectedPartialOps := by decide +kernel
 
 end Kvql.Properties.C06
